@@ -3,9 +3,10 @@
    Directives used: those of ExtrOcamlBasic only (bool, option, unit, list, prod, sumbool, sumor);
    no Extract Constant; Z / positive stay as extracted inductives. *)
 Require Import ExtrOcamlBasic WorldCheck.
-Require Import Base Fixed Panic Curve Bank BankOps Risk Handlers TransferFee XrateConsts Xrate Price ConfigGen Config Emode ConfigPaths ConfigHealth PrivGen Privilege Deleverage AnchorTypes AnchorSem Gate AccountsTable HandlerFacts Spec AuthCell AuthFixture TxConstants Tx TxToy AcctLifecycle RiskFeed Payout.
+Require Import Base Fixed Panic Curve Bank BankOps Risk Handlers TransferFee XrateConsts Xrate Price ConfigGen Config Emode ConfigPaths ConfigHealth PrivGen Privilege Deleverage AnchorTypes AnchorSem Gate AccountsTable HandlerFacts Spec AuthCell AuthFixture TxConstants Tx TxToy AcctLifecycle RiskFeed Payout GroupRoles.
 Extraction Language OCaml.
 Separate Extraction
+  ix_group_configure role_accepts role_keys gr_run mkGR mkGC
   pay_step pay_run tok_amt mkPayW MINT_BANK MINT_EM pay_fixture pay_obs pay_trace
   p_pause p_unpause p_unpause_if_expired p_is_expired p_can_pause c_is_expired ix_propagate
   ix_panic_pause ix_panic_unpause ix_panic_unpause_permissionless is_protocol_paused mkP
